@@ -162,6 +162,7 @@ def check_colourful(case, q, rec):
     border = kw.get('border')
     b = outoracle.default_border(n) if border is None else border
     out = io.BytesIO()
+    common.earlier_saves(q, case, rec)
     try:
         q.save(out, kind=kind, **kw)
     except Exception as ex:  # noqa: BLE001
